@@ -170,6 +170,10 @@ def generate(rng, tier):
         elif r < 0.95:
             ops.append({"op": "remove_columns", "names": rng.sample(fields, rng.randint(1, 2)),
                         "via_fmt_obj": rng.random() < 0.4})
+        elif r < 0.965:
+            ops.append({"op": "set_fmt_invalid", "fmt": rng.choice([
+                "nosuchfield", fields[0] + ":x", fields[0] + ":1-2-3", fields[0] + ":1:2", ";1", ";a:b", ";1:2:3",
+                "a;b;c;d", fields[0] + ",nosuchfield:3", fields[0] + "/nosuchmodifier"])})
         elif r < 0.975:
             ops.append({"op": "fmt_obj_ctor"})
         else:
@@ -521,6 +525,31 @@ def execute(trace, rng):
                     c.printed = False
                     c.expect = None
                     invalidate_tasks(w, c)
+            elif k == "set_fmt_invalid":
+                # a rejected assignment is a fault: it must leave the table exactly as it was
+                before = sut("render(table)", render, w, t, False)
+                c.printed = True
+                fmt_before = sut("str(table.fmt)", str, t.fmt)
+                try:
+                    t.set_fmt(op["fmt"])
+                    rejected = False
+                except (ValueError, AssertionError):
+                    rejected = True
+                except Exception as e:
+                    raise Violation("fault", f"invalid-format-raised-{type(e).__name__}", f"fmt {op['fmt']!r}: {e!r}")
+                if not rejected:
+                    # the format is legal after all (e.g. a field of that name exists): a real change
+                    w.stats["real_changes"] += 1
+                    c.printed = False
+                    c.expect = None
+                    invalidate_tasks(w, c)
+                    continue
+                w.stats["rejected_assignments"] = w.stats.get("rejected_assignments", 0) + 1
+                after = sut("render(table) after a rejected assignment", render, w, t, False)
+                if after != before or str(t.fmt) != fmt_before:
+                    raise Violation("fault", "rejected-assignment-changed-table",
+                                    f"fmt = {op['fmt']!r} was rejected but the table changed: " + first_diff(after, before)
+                                    + f"; fmt {fmt_before!r} -> {str(t.fmt)!r}")
             elif k == "save_fmt":
                 c.saved.append(sut("str(table.fmt)", str, t.fmt))
             elif k == "remove_columns":
@@ -554,6 +583,9 @@ def execute(trace, rng):
     except Violation as v:
         status = violation_result(v)
     st = dict(w.stats)
+    st["fault.rejected_assignment"] = st.get("rejected_assignments", 0)
+    st["fault.line_task_abandoned"] = st["tasks_abandoned"]
+    st["fault.format_replaced_during_line_task"] = st["noop_assign_inflight"]
     nontrivial = bool(st["probe_ranged_printed"] or st["probe_inflight"] or st["noop_assign_inflight"])
     h = hashlib.blake2b(json.dumps([trace["enums"], trace["table"], trace["ops"]], sort_keys=True).encode(),
                         digest_size=8).hexdigest()
